@@ -62,15 +62,22 @@ Definition parse_ext (l : list tok) : option (option span_ctx * bool) :=
   | _ => None
   end.
 
+(* Extract into the driver's sentinel context: the observation is either the sentinel
+   ("INVALID 1" = returned context is the caller's) or the installed span context *)
+Definition observe_extract (tp ts : bytes) : list tok :=
+  extract_into (fun _ c => print_ext (Some c)) (print_ext None) tp ts.
+
+(* what the carrier of the driver holds after Inject into an empty carrier *)
+Definition carrier_get (k : string) (car : list (bytes * bytes)) : bytes :=
+  match lookup (bs k) car with Some v => v | None => [] end.
+
 Definition run_model (l : list tok) : list tok :=
   match parse_case l with
   | Some (CInj c) => print_inj (inject c)
-  | Some (CExt tp ts) => print_ext (extract tp ts)
+  | Some (CExt tp ts) => observe_extract tp ts
   | Some (CRt c) =>
-      match inject c with
-      | Some (tp, ts) => print_ext (extract tp (match ts with Some h => h | None => [] end))
-      | None => print_ext (extract [] [])
-      end
+      let car := inject_into [] c in
+      observe_extract (carrier_get "traceparent" car) (carrier_get "tracestate" car)
   | None => bad_case
   end.
 
